@@ -1,6 +1,6 @@
 package main
 
-// extra_mux.go - structural obligations on hsrv.(*Server).newMux (C09, C01):
+// extra_mux.go - structural obligations on hsrv.(*Server).newMux (C09, C01, C07):
 // the shell endpoints are registered unconditionally with constant patterns,
 // the catch-all is registered iff a files source is configured.
 
@@ -15,6 +15,8 @@ import (
 func init() {
 	extraChecks["C09"] = append(extraChecks["C09"], func(w *World, tier string, seed int64) extraResult { return muxShape(w, "C09") })
 	extraChecks["C01"] = append(extraChecks["C01"], func(w *World, tier string, seed int64) extraResult { return muxShape(w, "C01") })
+	// C07: every request to /c (any method: the c2 form parameter arrives in a body) reaches scriptHandler
+	extraChecks["C07"] = append(extraChecks["C07"], func(w *World, tier string, seed int64) extraResult { return muxShape(w, "C07") })
 }
 
 func muxShape(w *World, prop string) extraResult {
